@@ -143,6 +143,20 @@ PDDL_PLUS_KEYWORDS = {"process", "event"}
 
 CONTINGENT_PDDL_KEYWORDS = {"observe", "oneof", "unknown"}
 
+HDDL_KEYWORDS = {
+    "hierarchy",
+    "method-preconditions",
+    "task",
+    "method",
+    "htn",
+    "subtasks",
+    "tasks",
+    "ordered-subtasks",
+    "ordered-tasks",
+    "ordering",
+    "constraints",
+}
+
 # The following map is used to mangle the invalid names by their class.
 INITIAL_LETTER: Dict[type, str] = {
     InstantaneousAction: "a",
@@ -379,6 +393,8 @@ class PDDLWriter:
             self.pddl_keywords |= TEMPORAL_PDDL_KEYWORDS
         if isinstance(self.problem, ContingentProblem):
             self.pddl_keywords |= CONTINGENT_PDDL_KEYWORDS
+        if isinstance(self.problem, HierarchicalProblem):
+            self.pddl_keywords |= HDDL_KEYWORDS
 
     def _write_parameters(self, out, a):
         for ap in a.parameters:
